@@ -602,6 +602,8 @@ pub struct ConnOut {
     pub write_after_shutdown: bool,
     pub started_ms: u64,
     pub flush_calls: u64,
+    /// bytes accepted by a buffering transport but never flushed to the wire
+    pub lost_staged: Vec<u8>,
 }
 
 #[derive(Clone, Debug)]
@@ -1219,6 +1221,7 @@ async fn run_h1_inner(sc: H1Scenario, tape: Tape, narr: bool) -> H1Out {
             write_after_shutdown: sock.write_after_shutdown,
             started_ms: started_ms[i],
             flush_calls: sock.flush_calls,
+            lost_staged: sock.staged.clone(),
         });
     }
     if narr {
